@@ -166,7 +166,7 @@ func ruleProtectedMetatable(c *Ctx) {
 		if !((b.X == ssa.Value(field) && isNil(b.Y)) || (b.Y == ssa.Value(field) && isNil(b.X))) {
 			return false
 		}
-		return (b.Op == token.EQL && cd.Sense) || (b.Op == token.NEQ && !cd.Sense)
+		return (eqHolds(b, cd)) || (b.Op == token.NEQ && !cd.Sense)
 	}
 	okc := true
 	var where ssa.Instruction
@@ -523,7 +523,7 @@ func ruleIsIntegerBounded(c *Ctx) {
 		if !ok {
 			return false
 		}
-		if b.Op == token.EQL && cd.Sense || b.Op == token.NEQ && !cd.Sense {
+		if eqHolds(b, cd) || b.Op == token.NEQ && !cd.Sense {
 			if (roundTrip(b.X) && fromParam(b.Y)) || (roundTrip(b.Y) && fromParam(b.X)) {
 				return true
 			}
@@ -827,7 +827,7 @@ func ruleProtectedCallConsultsContext(c *Ctx) {
 		}
 		for _, cd := range g.expandAnd(g.CondsAtInstr(in)) {
 			b, ok := cd.V.(*ssa.BinOp)
-			if !ok || !((b.Op == token.NEQ && cd.Sense) || (b.Op == token.EQL && !cd.Sense)) {
+			if !ok || !((b.Op == token.NEQ && cd.Sense) || (neHolds(b, cd))) {
 				continue
 			}
 			for _, side := range []ssa.Value{b.X, b.Y} {
